@@ -36,7 +36,9 @@ KEYS = {"psign-fast@split": "mesh2d-winding:on-split-line",
         "psign-fast@other": "mesh2d-winding:other-point",
         "psign-fast@snap": "mesh2d-winding:vertex-in-snap-band",
         "sign-fast@snap": "mesh2d-winding:vertex-in-snap-band",
-        "sign-polygon2d@snap": "mesh2d-winding:vertex-in-snap-band"}
+        "sign-polygon2d@snap": "mesh2d-winding:vertex-in-snap-band",
+        # only the quadtree's DISTANCE (fast) classes: the brute force and every sign stay judged as usual
+        "pdist-fast@far": "mesh2d-distance:far-from-origin", "pfast-vs-slow@far": "mesh2d-distance:far-from-origin"}
 
 
 def strip(e):
@@ -82,6 +84,8 @@ def describe(o, name, w):
         return ("polygon %s at lattice point %s: expected d^2=%s; sign classes fast/slow/Polygon2D = %d/%d/%d, "
                 "errors (1e-12) %d/%d/%d, ||fast|-|slow|| %d" % (o["v"], w, o["exp"][i], o["lsf"][i], o["lss"][i], o["lsp"][i],
                                                                   o["lef"][i], o["les"][i], o["lep"][i], o["ldfs"][i]))
+    if name == "pctor-error":
+        return "a simple polygon (%s, %d vertices) is refused by Polygon2D / Mesh2D / Mesh2DSlow" % (o.get("desc"), o.get("nv", 0))
     i = w[0] - 1
     q = o["pr"]
     poly = o.get("v") or (o.get("poly") if o.get("nv", 99) <= 8 else "%s with %d vertices (seeded)" % (o.get("desc"), o["nv"]))
